@@ -184,6 +184,11 @@ pub fn run(ctx: &Ctx) -> Outcome {
                                 let mut st = core.into_stream();
                                 let mut off = k * bs;
                                 for (i, &n) in tail.iter().enumerate() {
+                                    // before the second piece: seek to where the stream already is (inside the block just begun);
+                                    // the byte-level cipher must go on exactly like the block-wise reference
+                                    if i == 1 && d.seekable && how == 1 {
+                                        ensure!(st.seek(SeekTy::U64, off as u128) == Some(Ok(())), format!("seek_refused/{}", d.mode), "{}: seek to the current position refused", d.ty);
+                                    }
                                     let mut o = msg[off..off + n].to_vec();
                                     let r = if i % 2 == 0 { st.apply(Kind::InPlace, &[], &mut o) } else { let inp = o.clone(); st.apply(Kind::B2b, &inp, &mut o) };
                                     ensure!(r.is_ok(), format!("request_refused/{}", d.mode), "{}: byte-level request refused far from the limit", d.ty);
